@@ -65,6 +65,8 @@ type Spec struct {
 	// RaceVerdict classifies a race report: sig != "" and violation=true makes it a violation of
 	// this property; otherwise it is recorded as a diagnostic only.
 	RaceVerdict func(r RaceReport) (sig string, violation bool)
+	// EvalCounter, if set, names the counter reported as coverage.evaluations (default: cases).
+	EvalCounter string
 	// Finish is an optional cross-worker decision step (facts from several fresh processes).
 	Finish func(d *Merged)
 }
